@@ -29,6 +29,7 @@ fn main() {
         "cors" => d_cors::run(&opts),
         "wire-history" => d_wire::history(&opts),
         "wire-conc" => d_wire::conc(&opts),
+        "wire-fs" => d_wire::fs(&opts),
         "conn-child" => d_conn::child(&opts),
         "random-worlds" => d_serve::random_worlds(&opts),
         other => {
